@@ -321,6 +321,9 @@ class Engine:
             last = name.split("::")[-1]
             if fn is not None and re.fullmatch(r"[A-Z_0-9]+", last) and last in fn.consts:
                 return Z(z3.IntVal(fn.consts[last]))
+            m = re.match(r"^ZeroSized: \{closure@([^}]*)\}$", name)
+            if m:
+                return Closure(self.find_closure(m.group(1)), Agg("closure", []))
             return self.models.constant(name)
         raise Unsupported("operand: " + s)
 
